@@ -106,7 +106,9 @@ class _PotComplement:
 # ------------------------------------------------------------------ inline_cells_worker (C13: every `to_inline` set)
 
 class OpaqueNode(Opaque):
-    """Opaque operator node of the converter layer (not a leaf for isLeaf / isSurface / isCellRef)."""
+    """Opaque operator node of the converter layer (not a leaf for isLeaf / isSurface / isCellRef): asked whether it
+    is a tuple / list / GeomExpression the answer is yes, asked for only one of them the code leaves the subset."""
+    node_kind = ('tuple', 'list', 'GeomExpression')
 
 
 def _node(S, name):
